@@ -80,6 +80,13 @@ func (a Box2) Contains(v v2.Vec) bool {
 		v.Y <= a.Max.Y
 }
 
+// maxRadius returns the distance from the origin to the farthest point of a 2d box.
+func (a Box2) maxRadius() float64 {
+	x := math.Max(math.Abs(a.Min.X), math.Abs(a.Max.X))
+	y := math.Max(math.Abs(a.Min.Y), math.Abs(a.Max.Y))
+	return math.Sqrt(x*x + y*y)
+}
+
 // Vertices returns a slice of 2d box corner vertices.
 func (a Box2) Vertices() v2.VecSet {
 	return []v2.Vec{
